@@ -56,6 +56,8 @@ func (p *prop) pipelineModule(c core.Case, w *core.Worker, res *core.Result, r *
 		m.MustWrite(filepath.Join("_deps/dep", d, "x.go"), fmt.Sprintf("package p%d\n\ntype Thing struct{}\n\nfunc Make() Thing { return Thing{} }\n", i))
 		declared[pdep+"/"+d] = fmt.Sprintf("p%d", i)
 	}
+	m.MustWrite(filepath.Join("_deps/dep", "never/used", "x.go"), "package neverused\n\ntype Thing struct{}\n")
+	declared[pdep+"/never/used"] = "neverused"
 	// two packages; the second one is referenced from the first (a module-local import) and references itself
 	m.MustWrite("one/one.go", "// +gengo:imp\npackage one\n\ntype A struct{}\n\ntype B int\n")
 	m.MustWrite("two/two.go", "// +gengo:imp\npackage two\n\ntype Local struct{}\n\ntype C map[string]int\n")
@@ -81,7 +83,18 @@ func (p *prop) pipelineModule(c core.Case, w *core.Worker, res *core.Result, r *
 			if pp != pkgPath {
 				refsByPkg[pkgPath][pp] = true
 			}
-			switch r.Intn(3) {
+			switch r.Intn(4) {
+			case 3:
+				// one Args map shared by several templates: the arguments this format never mentions must leave no
+				// trace - neither text nor an import (seeded change C03-l: every argument rendered once up front)
+				c.RenderT("var _ @T\n\n", snippet.Args{
+					"T":       snippet.ID(ref),
+					"Unused":  snippet.ID(pdep + "/never/used.Thing"),
+					"Unused2": snippet.PkgExpose("container/list", "New"),
+					"Unused3": snippet.Value(token.Pos(7)),
+					"Unused4": snippet.Sprintf("%T", "encoding/xml.Decoder"),
+				})
+				res.Inc("pipeline_templates_with_unmentioned_arguments")
 			case 0:
 				c.RenderT("var _ @T\n\n", snippet.Arg("T", snippet.ID(ref)))
 			case 1:
